@@ -111,7 +111,8 @@ PROPS = {
             "ends on a char boundary, the cursor moves to its end; Reject up to the regex's next match, Match exactly for it, "
             "Done only at the end and sticky - with find_from(..).next() as an uninterpreted first-match function (C09's "
             "contract, assumed); RegexSearcher::next_back likewise, with find_last_match_before as an assumed contract that "
-            "is checked separately (Kani, bounded: every match sequence of <= 3 matches on a 4-byte haystack). "
+            "is discharged separately: unbounded by the Verus unit cv_last_match (any number of matches, iterator contract assumed) "
+            "and with the real driver by Kani (bounded: every match sequence of <= 3 matches on a 4-byte haystack). "
             "BOUNDED (Kani, feature pattern, real matcher driver with an oracle interpreter, 4-byte haystack with a 2-byte "
             "char): the forward step. KNOWN FINDINGS: F7 (forward) and F7b (reverse): after a zero-width match the steps are "
             "not adjacent, and next_back then skips matches. NOT covered: agreement of the reverse stream with the forward match sequence, interleavings of next/next_back, "
